@@ -31,7 +31,7 @@ PINS = {
     "C12": ["C12_trace", "C12_slots", "C12_del_guard", "C12_del_not_reserved", "C12_add_slots", "C12_drop_list_covered", "C12_drops_not_stranded",
             "C12_live_waker_keeps_slot", "C12_deleted_only_dropped", "C12_dropped_at_most_once"],
     "C13": ["C13_trace", "C13_queue_owed", "C13_not_stranded", "C13_closed_empty", "C13_channel_partial"],
-    "C14": ["C14_replies_partial", "C14_recv_not_lost", "C14_recv_wait_decided", "C14_reply_queue_owed", "C14_replies_not_stranded",
+    "C14": ["C14_trace", "C14_replies_partial", "C14_recv_not_lost", "C14_recv_wait_decided", "C14_reply_queue_owed", "C14_replies_not_stranded",
             "C14_reply_wake_hits_handler", "C14_piped_partial"],
 }
 WDIR = os.path.join(vlib.ROOT, "harness", "w")
